@@ -350,6 +350,10 @@ def execute(trace: dict, known, collect_log=True) -> dict:
             orig = data
         else:
             orig = deck_bytes(trace["deck"])
+            for x in trace.get("pre", []):
+                # the same deck as another producer spells it (relationship ids, explicit TargetMode, part numbering): still a regular package
+                orig = pkgxform.apply(orig, x)
+                res["probes"].hit("respelled_" + x["kind"])
             data = orig
             # structural faults first, byte-level faults (truncate / non-zip) last
             for x in sorted(trace["faults"], key=lambda y: y["fault"] in ("truncate", "non_zip")):
@@ -463,6 +467,33 @@ def execute(trace: dict, known, collect_log=True) -> dict:
                     ids3 = got_ids
                 if ids3 != got_ids:
                     report("preserve|slide-order-after-second-save", "in memory=%r re-opened=%r" % (got_ids, ids3), CLAUSES["preserve"])
+                # third stage, only for irregularities that leave every part present, typed and related (renamed slide parts, case
+                # differences, extra members, no core properties): the deck takes a new slide like any other
+                if all(x["fault"] in ("rename_slides", "case_flip_ct", "extra_member", "remove_core_props") for x in trace.get("faults", [])) and not ref.dangling:
+                    try:
+                        layouts = list(prs.slide_layouts)
+                    except Exception:  # noqa: BLE001
+                        layouts = []
+                    if layouts:
+                        try:
+                            new_sl = prs.slides.add_slide(layouts[0])
+                            s3 = SimSink("seekable")
+                            prs.save(s3)
+                        except Exception as e:  # noqa: BLE001
+                            import traceback
+                            report("preserve|add-slide-after-open-raises|%s" % type(e).__name__, traceback.format_exc()[-1500:], CLAUSES["preserve"])
+                        out3 = refpkg.RefPackage.from_bytes(s3.image())
+                        for rule, detail in refpkg.closure_problems(out3, {(n, a, v) for n in out3.members for (a, v) in tol_av}):
+                            report("save|closure-after-add-slide|%s" % rule, detail, CLAUSES["save"])
+                        try:
+                            ids4 = [s_.slide_id for s_ in pptx.Presentation(SimSource(s3.image())).slides]
+                        except Exception as e:  # noqa: BLE001
+                            import traceback
+                            report("save|re-open-after-add-slide-raises|%s" % type(e).__name__, traceback.format_exc()[-1500:], CLAUSES["save"])
+                            ids4 = got_ids + [new_sl.slide_id]
+                        if ids4 != got_ids + [new_sl.slide_id]:
+                            report("preserve|slides-after-add-slide", "want=%r got=%r" % (got_ids + [new_sl.slide_id], ids4), CLAUSES["preserve"])
+                        res["stats"].hit("c16_third_stage_add_slide")
                 res["stats"].hit("c16_compared")
         res["states"] = [jdump([trace.get("deck"), [x["fault"] for x in trace.get("faults", [])], form, exp[0]])]
     except _Done:
@@ -473,7 +504,7 @@ def execute(trace: dict, known, collect_log=True) -> dict:
     except Exception:  # noqa: BLE001
         import traceback
         res["error"] = "harness exception:\n" + traceback.format_exc()[-3000:]
-    res["digest"] = hashlib.sha256(jdump([log, trace.get("deck"), trace.get("faults"), trace.get("form")]).encode()).hexdigest()
+    res["digest"] = hashlib.sha256(jdump([log, trace.get("deck"), trace.get("faults"), trace.get("form"), trace.get("pre")]).encode()).hexdigest()
     for k in ("faults", "probes", "stats"):
         res[k] = dict(res[k])
     res["n_events"] = 1 + len(trace.get("faults", []))
@@ -527,6 +558,15 @@ def gen_trace(seed: int, tier: str) -> dict:
     t = {"property": ID, "seed": seed, "tier": tier, "deck": deck, "faults": faults, "form": form, "events": []}
     if form == "stream":
         t["pos"] = r.choice([0, 0, 11, 10 ** 8])
+    rp = S("respell")
+    k = rp.random()
+    name_free = all(y["fault"] in ("rename_slides", "extra_member", "remove_core_props", "truncate", "non_zip", "wrong_main_ctype") for y in faults)
+    if k < 0.25:
+        t["pre"] = [{"kind": "explicit_internal", "rate": rp.choice([1.0, 0.5]), "seed": rp.randint(0, 99)}]
+    elif k < 0.40 and name_free:
+        t["pre"] = [rp.choice([{"kind": "respell_rids", "style": "mixed", "seed": rp.randint(0, 99)},
+                               {"kind": "renumber", "family": rp.choice(["charts", "themes", "notes", "media", "embeddings", "layouts", "masters"]),
+                                "mode": rp.choice(["odd", "shift", "sparse"]), "seed": rp.randint(0, 99)}])]
     return t
 
 
@@ -538,7 +578,10 @@ def index_trace(idx: int, tier: str, verif_seed: int) -> dict | None:
         return None
     deck, x = singles[idx // 3]
     form = ["stream", "path", "dir"][idx % 3]
-    return {"property": ID, "seed": "single-%d" % idx, "tier": tier, "deck": deck, "faults": [x], "form": form, "events": []}
+    t = {"property": ID, "seed": "single-%d" % idx, "tier": tier, "deck": deck, "faults": [x], "form": form, "events": []}
+    if (idx // 3) % 4 == 1:
+        t["pre"] = [{"kind": "explicit_internal", "rate": 0.5, "seed": idx}]
+    return t
 
 
 def make_oracles(trace):
@@ -563,6 +606,12 @@ def pinned_traces(tier):
     # every corpus deck unfaulted in directory form
     for d in common.corpus_decks():
         out.append({"property": ID, "seed": "dirform-%s" % d, "tier": "pinned", "deck": d, "faults": [], "form": "dir", "events": []})
+        # ... and as another producer spells it: explicit TargetMode="Internal", its own relationship ids, its own part numbering
+        out.append({"property": ID, "seed": "explicit-internal-%s" % d, "tier": "pinned", "deck": d, "faults": [], "form": "stream", "events": [],
+                    "pre": [{"kind": "explicit_internal", "rate": 1.0, "seed": 0}]})
+        out.append({"property": ID, "seed": "respelled-%s" % d, "tier": "pinned", "deck": d, "faults": [{"fault": "rename_slides", "mode": "lastfits", "seed": 3}], "form": "path", "events": [],
+                    "pre": [{"kind": "respell_rids", "style": "mixed", "seed": 1}, {"kind": "renumber", "family": "media", "mode": "odd", "seed": 1},
+                            {"kind": "renumber", "family": "charts", "mode": "shift", "seed": 1}]})
     return out
 
 
@@ -574,4 +623,7 @@ def shrink_candidates(trace):
             out.append(dict(trace, faults=fs[:i] + fs[i + 1:]))
     if trace.get("form") != "stream" or trace.get("pos"):
         out.append(dict(trace, form="stream", pos=0))
+    pre = trace.get("pre", [])
+    for i in range(len(pre)):
+        out.append(dict(trace, pre=pre[:i] + pre[i + 1:]))
     return out
